@@ -1,8 +1,10 @@
 package main
 
 import (
+	"bytes"
+	"crypto/sha3"
 	"fmt"
-	"verif/ref/blake2ref"
+	"verif/ref/keccakref"
 )
 
 func pat(n, s int) []byte {
@@ -13,24 +15,39 @@ func pat(n, s int) []byte {
 	return b
 }
 func main() {
-	for size := 1; size <= 64; size++ {
-		for _, kl := range []int{0, 1, 17, 63, 64} {
-			for _, ml := range []int{0, 1, 127, 128, 129, 255, 256, 257, 600} {
-				fmt.Printf("b %d %d %d %x\n", size, kl, ml, blake2ref.SumB(size, pat(kl, 3), pat(ml, 1)))
+	for ml := 0; ml <= 420; ml++ {
+		m := pat(ml, 1)
+		for _, b := range []int{224, 256, 384, 512} {
+			fmt.Printf("sha3_%d %d %x\n", b, ml, keccakref.SHA3(b, m))
+		}
+		fmt.Printf("shake_128 %d %x\n", ml, keccakref.SHAKE(128, m, 400))
+		fmt.Printf("shake_256 %d %x\n", ml, keccakref.SHAKE(256, m, 400))
+	}
+	// cSHAKE vs Go standard library (third source, development time only)
+	bad := 0
+	n := 0
+	for _, nl := range []int{0, 1, 5, 135, 136, 137, 167, 168, 169, 200, 300} {
+		for _, sl := range []int{0, 1, 20, 130, 131, 132, 133, 163, 164, 165, 200, 400} {
+			for _, ml := range []int{0, 1, 135, 136, 137, 168, 169, 500} {
+				N, S, m := pat(nl, 2), pat(sl, 3), pat(ml, 4)
+				for _, bits := range []int{128, 256} {
+					var h *sha3.SHAKE
+					if bits == 128 {
+						h = sha3.NewCSHAKE128(N, S)
+					} else {
+						h = sha3.NewCSHAKE256(N, S)
+					}
+					h.Write(m)
+					out := make([]byte, 300)
+					h.Read(out)
+					n++
+					if !bytes.Equal(out, keccakref.CSHAKE(bits, N, S, m, 300)) {
+						bad++
+						fmt.Println("CSHAKE MISMATCH", bits, nl, sl, ml)
+					}
+				}
 			}
 		}
 	}
-	for size := 1; size <= 32; size++ {
-		for _, kl := range []int{0, 1, 17, 31, 32} {
-			for _, ml := range []int{0, 1, 63, 64, 65, 127, 128, 129, 600} {
-				fmt.Printf("s %d %d %d %x\n", size, kl, ml, blake2ref.SumS(size, pat(kl, 3), pat(ml, 1)))
-			}
-		}
-	}
-	for _, l := range []uint32{1, 64, 65, 1000, 65535, 70000, 0xffffffff} {
-		fmt.Printf("rb %d %x\n", l, blake2ref.XRootB(l, pat(9, 3), pat(200, 1)))
-	}
-	for _, l := range []uint16{1, 32, 33, 1000, 65534, 65535} {
-		fmt.Printf("rs %d %x\n", l, blake2ref.XRootS(l, pat(9, 3), pat(200, 1)))
-	}
+	fmt.Println("cshake compared", n, "bad", bad)
 }
